@@ -16,8 +16,10 @@ import (
 	"fmt"
 	"math/big"
 	"os"
+	"path/filepath"
 	"strconv"
 	"strings"
+	"sync"
 
 	"cosmossdk.io/core/store"
 	"cosmossdk.io/log"
@@ -193,9 +195,52 @@ func val(name string) (string, bool) {
 	name = namePrefix + name
 	v, ok := cur.Values[name]
 	if !ok {
+		outMu.Lock()
 		outcome.Missing = append(outcome.Missing, name)
+		outMu.Unlock()
 	}
 	return v, ok
+}
+
+// outMu guards the few writes to the outcome that can happen inside the bodies of Parallel (a value
+// missing from the replay, a recorded panic). It is not taken on the paths a clean run follows, so
+// it adds no happens-before edge between the two bodies there.
+var outMu sync.Mutex
+
+// PRIMITIVE. Parallel runs f and g on two goroutines and waits for both. Symbolically the bodies run
+// one after the other and the engine records which package-level memory each reads and writes
+// outside any lock. The bodies must not create environments, push name prefixes or record
+// assertions, covers or probes (the runtime's own bookkeeping is not synchronised on purpose).
+func Parallel(f, g func()) {
+	raceMark = raceLogSize()
+	var wg sync.WaitGroup
+	wg.Add(2)
+	go func() { defer wg.Done(); f() }()
+	go func() { defer wg.Done(); g() }()
+	wg.Wait()
+}
+
+var raceMark int64
+
+// PRIMITIVE. Raced reports whether the bodies of the last Parallel made conflicting unsynchronised
+// accesses to shared memory. Natively that is the race detector's verdict: the replay binary is
+// built with -race and GORACE=log_path=<p>, and a report written since Parallel started means yes;
+// without the detector the answer is no.
+func Raced() bool { return raceLogSize() > raceMark }
+
+func raceLogSize() int64 {
+	var total int64
+	for _, kv := range strings.Fields(os.Getenv("GORACE")) {
+		if p, ok := strings.CutPrefix(kv, "log_path="); ok {
+			ms, _ := filepath.Glob(p + ".*")
+			for _, m := range ms {
+				if st, err := os.Stat(m); err == nil {
+					total += st.Size()
+				}
+			}
+		}
+	}
+	return total
 }
 
 func valUint(name string) uint64 {
@@ -324,7 +369,9 @@ func Catch(f func()) (panicked bool) {
 				panic(r)
 			}
 			panicked = true
+			outMu.Lock()
 			outcome.Probes["last-panic"] = fmt.Sprint(r)
+			outMu.Unlock()
 		}
 	}()
 	f()
@@ -606,11 +653,17 @@ type BankCall struct {
 
 type Bank struct {
 	Calls []BankCall
+	// MayPanic: a failing call may also fail by panicking (C14: every way a dependency can fail)
+	MayPanic bool
 }
 
 func (b *Bank) SendCoinsFromAccountToModule(ctx context.Context, senderAddr sdk.AccAddress, recipientModule string, amt sdk.Coins) error {
-	err := NondetErr("bank_err_" + strconv.Itoa(len(b.Calls)))
+	n := strconv.Itoa(len(b.Calls))
+	err := NondetErr("bank_err_" + n)
 	b.Calls = append(b.Calls, BankCall{Sender: senderAddr, Module: recipientModule, Amt: amt, Err: err})
+	if err != nil && b.MayPanic && NondetBool("bank_panics_"+n) {
+		panic("bank: transfer panicked")
+	}
 	return err
 }
 
@@ -625,6 +678,8 @@ type FTF struct {
 	Mints      []fiattokenfactorytypes.MsgMint
 	MintErrs   []error
 	DenomReads int
+	// MayPanic: a failing burn or mint may also fail by panicking (C14)
+	MayPanic bool
 }
 
 // Burn follows the pinned fiat-token-factory contract: it can succeed only for a strictly positive
@@ -636,6 +691,9 @@ func (f *FTF) Burn(ctx sdk.Context, msg *fiattokenfactorytypes.MsgBurn) (*fiatto
 	}
 	f.Burns = append(f.Burns, *msg)
 	f.BurnErrs = append(f.BurnErrs, err)
+	if err != nil && f.MayPanic && NondetBool("burn_panics_"+strconv.Itoa(len(f.Burns)-1)) {
+		panic("fiattokenfactory: burn panicked")
+	}
 	if err != nil {
 		return nil, err
 	}
@@ -646,6 +704,9 @@ func (f *FTF) Mint(ctx sdk.Context, msg *fiattokenfactorytypes.MsgMint) (*fiatto
 	err := NondetErr("mint_err_" + strconv.Itoa(len(f.Mints)))
 	f.Mints = append(f.Mints, *msg)
 	f.MintErrs = append(f.MintErrs, err)
+	if err != nil && f.MayPanic && NondetBool("mint_panics_"+strconv.Itoa(len(f.Mints)-1)) {
+		panic("fiattokenfactory: mint panicked")
+	}
 	if err != nil {
 		return nil, err
 	}
